@@ -394,6 +394,18 @@ func (s *c07Streams) decTarget(ty string, v reflect.Value, variant int) reflect.
 		switch variant % 3 {
 		case 1: // preallocated with the right outer length (the decoder reuses it)
 			p.Elem().Set(reflect.MakeSlice(T, v.Len(), v.Len()))
+			if ty == "vvfr" || ty == "vvvfr" {
+				// ... whose inner collections are one longer than the encoded ones (the decoder must cut them down)
+				for i := 0; i < v.Len(); i++ {
+					in := v.Index(i)
+					p.Elem().Index(i).Set(reflect.MakeSlice(in.Type(), in.Len()+1, in.Len()+1))
+					if ty == "vvvfr" {
+						for j := 0; j < in.Len(); j++ {
+							p.Elem().Index(i).Index(j).Set(reflect.MakeSlice(in.Index(j).Type(), in.Index(j).Len()+1, in.Index(j).Len()+1))
+						}
+					}
+				}
+			}
 		case 2: // preallocated with another length
 			p.Elem().Set(reflect.MakeSlice(T, v.Len()+1, v.Len()+1))
 		}
